@@ -149,7 +149,9 @@ def snapshot(g, with_values=True):
         return None if p is None else ('P', g.O(p.parent) if id(p.parent) in g.oid else '?', type(p).__name__, p.name)
 
     def enc(v, depth=0):
-        if v is None or isinstance(v, (bool, int, str, float)):
+        if isinstance(v, bool):
+            return ('bool', v)          # True == 1 in python: keep the TYPE observable
+        if v is None or isinstance(v, (int, str, float)):
             return v
         if isinstance(v, (py4hw.Wire, py4hw.FakeWire)):
             return ('W', g.wid.get(id(v), '?'))
